@@ -3,7 +3,8 @@
 1. TLC checks the clauses of C05 (and that the controller's inspections, action Inspect, leave the workflow unchanged) (ExactInstances, CarriedFromPrevious, OthersFromOriginal, SameIterationInside,
    NoStageDrift, LatestIsHighest, AggregateInOrder, OutsideResolution, ConditionFromNewest) on every reachable state of the unrolling state
    machine for every document shape of the family (import stage, 1-2 looped components, body stages, with/without
-   loopBindings and which component carries them, condition producer, replication inside the loop, names one of which
+   loopBindings and which component carries them, condition producer (a looped component or a separate one, in either
+   document stage), replication inside the loop, names one of which
    ends in the other, the same document imported twice) up to MaxK >= 12 iterations; coverage guard on Iterate; the
    named deviation LexAgreesWithNumeric is run with the expectation of a violation (witness that the model reaches
    the region where string order and numeric order of iteration numbers differ).
@@ -13,7 +14,7 @@
    k times.  After EACH call the real graph is projected and compared with the TLC state for that (shape, k):
    node set, references / command line / predecessors of every instance, placeholder 'latest' and 'represents',
    DataReference.resolve() of :ref/:output/:loopref/:loopoutput references from outside the loop (paths and file
-   contents), ComponentSpecification.producers of the outside consumers, the DoWhile 'state', the returned names.
+   contents), their dependency on the current condition producer, ComponentSpecification.producers of the outside consumers, the DoWhile 'state', the returned names.
 """
 import json
 import os
@@ -25,7 +26,7 @@ from .. import tlc
 
 PID = "C05"
 INVARIANTS = ["TypeOK", "ExactInstances", "CarriedFromPrevious", "OthersFromOriginal", "SameIterationInside",
-              "NoStageDrift", "LatestIsHighest", "AggregateInOrder", "OutsideResolution", "ConditionFromNewest"]
+              "NoStageDrift", "LatestIsHighest", "AggregateInOrder", "OutsideResolution", "ConditionFromNewest", "ConditionExists"]
 METHS = ["ref", "output", "loopref", "loopoutput"]
 AGG = ("loopref", "loopoutput")
 
@@ -39,7 +40,7 @@ def names_of(sh):
         n = {"W": "work", "A": "gather"}
     else:
         n = {"W": "add", "A": "fake_add"}
-    n["gen"], n["src"], n["fix"] = "gen", "src", "fix"
+    n["gen"], n["src"], n["fix"], n["S"] = "gen", "src", "fix", "stop"
     if sh["names"] == "tricky":
         n["W"] = "src"      # same name as the outside producer the binding `fix` points to (different stage)
     return n
@@ -50,15 +51,33 @@ def off(sh, d):
 
 
 def body(sh, r):
-    return sh["sw"] if r == "W" else sh["sa"]
+    return sh["sw"] if r == "W" else sh["sa"] if r == "A" else sh["sc"]
 
 
 def loops(sh):
     return [1, 2] if sh["twin"] else [1]
 
 
-def roles(sh):
+def consumed(sh):
     return ["W", "A"] if sh["aux"] else ["W"]
+
+
+def roles(sh):
+    return consumed(sh) + (["S"] if sh["cond"] == "S" else [])
+
+
+def cond_ref(sh, stage, producer):
+    """the condition: the stdout of W, a file of the others; always spelled with its stage"""
+    return "stage%d.%s%s:output" % (stage, producer, "" if sh["cond"] == "W" else "/flag.txt")
+
+
+def s_target(sh):
+    """what the separate condition producer looks at (spec RefsOf, role S)"""
+    if sh["aux"] and sh["sc"] >= sh["sa"]:
+        return "A"
+    if not sh["repl"] and sh["sc"] >= sh["sw"]:
+        return "W"
+    return None
 
 
 def fixmeth(sh):
@@ -77,7 +96,7 @@ def dowhile_doc(sh):
     if sh["carry"] != "none":
         doc["loopBindings"] = {"inp": "stage%d.%s:output" % (body(sh, sh["carry"]), n[sh["carry"]])}
     cr = sh["cond"]
-    doc["condition"] = ("stage%d.%s/flag.txt:output" if cr == "A" else "stage%d.%s:output") % (body(sh, cr), n[cr])
+    doc["condition"] = cond_ref(sh, body(sh, cr), n[cr])
     w = {"name": n["W"], "stage": sh["sw"], "command": {"executable": "echo", "arguments": "inp:output %s" % fixref},
          "references": ["inp:output", fixref]}
     if sh["repl"]:
@@ -90,6 +109,14 @@ def dowhile_doc(sh):
         if sh["repl"]:
             a["workflowAttributes"] = {"aggregate": True}
         comps.append(a)
+    if cr == "S":
+        t = s_target(sh)
+        s = {"name": n["S"], "stage": sh["sc"], "command": {"executable": "echo", "arguments": "hello"}}
+        if t:
+            tref = ("%s:output" % n[t]) if body(sh, t) == sh["sc"] else "stage%d.%s:output" % (body(sh, t), n[t])
+            s["command"]["arguments"] = tref
+            s["references"] = [tref]
+        comps.append(s)
     doc["components"] = comps
     return doc
 
@@ -98,7 +125,7 @@ def consumer_refs(sh, d, m):
     """references of the outside consumer c<d>-<m>: the placeholders of loop d with method m"""
     n = names_of(sh)
     rs = []
-    for r in roles(sh):
+    for r in consumed(sh):
         if sh["repl"] and r == "W" and m in AGG:
             continue        # aggregate references go to the aggregating component when W replicates
         rs.append((r, "stage%d.%s:%s" % (off(sh, d) + body(sh, r), n[r], m)))
@@ -151,6 +178,8 @@ def expected_args(sh, x):
     inp = [q for q in x["refs"] if q["prod"] == "gen" or (x["role"] == "W" and q["iter"] >= 0)]
     fix = [q for q in x["refs"] if q["prod"] == "src"]
     ws = sorted([q for q in x["refs"] if x["role"] == "A" and q["prod"] == "W"], key=lambda q: q["rep"])
+    if x["role"] == "S":
+        return " ".join(ref_str(sh, q) for q in x["refs"]) or "hello"
     if x["role"] == "W":
         toks = inp + fix
     else:
@@ -273,8 +302,9 @@ class RealLoop:
         shutil.rmtree(self.root, ignore_errors=True)
 
 
-def compare(real, st, new_names, step):
-    """-> list of (site, message).  st: the TLC state (shape, k, inst, latest, order, cond)"""
+def compare(real, st, new_names, step, every_instance=True):
+    """-> list of (site, message).  st: the TLC state (shape, k, inst, latest, order, cond).
+    every_instance=False: the wiring is only compared for the newest two iterations of every loop (the other clauses always)"""
     import experiment.model.graph as G
     sh, wg = st["sh"], real.wg
     n = names_of(sh)
@@ -303,6 +333,8 @@ def compare(real, st, new_names, step):
             out.append(("nodes", "iteration %d of loop %d returned %s, specified %s" % (i, d, sorted(new_names), sorted(want_new))))
     # (b) wiring of every instance (old ones must not change either)
     for nm, x in sorted(inst_names.items()):
+        if not every_instance and x["iter"] < st["k"][x["loop"] - 1] - 1:
+            continue
         spec = g.nodes[nm]["componentSpecification"]
         got = sorted(r.absoluteReference for r in spec.dataReferences)
         want = sorted(ref_str(sh, q) for q in x["refs"])
@@ -342,7 +374,7 @@ def compare(real, st, new_names, step):
                     out.append(("placeholder-represents", "placeholder %s represents %s, specified %s" % (p, sorted(ph["represents"]), want_rep)))
         state = wg._documents["DoWhile"][real.doc_id(d)].get("state") or {}
         cr = sh["cond"]
-        want_cond = "stage%d.%d#%s%s:output" % (off(sh, d) + body(sh, cr), st["cond"][d - 1], n[cr], "/flag.txt" if cr == "A" else "")
+        want_cond = cond_ref(sh, off(sh, d) + body(sh, cr), "%d#%s" % (st["cond"][d - 1], n[cr]))
         if state.get("currentIteration") != st["cond"][d - 1] or state.get("currentCondition") != want_cond:
             out.append(("state", "loop %d (k=%s of %s): state %s, specified currentIteration %d, currentCondition %s" % (
                 d, kd, st["k"], state, st["cond"][d - 1], want_cond)))
@@ -358,6 +390,10 @@ def compare(real, st, new_names, step):
                 preds = set(g.predecessors(cn))
                 if not preds <= all_inst:
                     out.append(("edges", "%s has predecessors outside the loops: %s" % (cn, sorted(preds - all_inst))))
+                cnode = "stage%d.%d#%s" % (off(sh, d) + body(sh, sh["cond"]), st["cond"][d - 1], n[sh["cond"]])
+                if cnode not in preds:
+                    out.append(("condition-edge", "%s does not wait for the current condition producer %s of loop %d (predecessors %s)" % (
+                        cn, cnode, d, sorted(preds))))
                 drefs = {r.absoluteReference: r for r in spec.dataReferences}
                 for r, _ in consumer_refs(sh, d, m):
                     suffix = str(j) if (r == "W" and j >= 0) else ""
@@ -416,6 +452,19 @@ def shape_key(sh):
     return json.dumps(sh, sort_keys=True)
 
 
+def raised_by_real_code(exc):
+    """did the exception come out of the code under test and not out of the
+    harness (below the last harness frame the traceback runs through the `experiment` package)?  Real code that raises on a document the spec calls valid is a violation; a harness failure is a machinery error."""
+    files, tb = [], exc.__traceback__
+    while tb is not None:
+        files.append(tb.tb_frame.f_code.co_filename)
+        tb = tb.tb_next
+    sep = os.sep
+    harness = [i for i, f in enumerate(files) if (sep + "harness" + sep) in f]
+    below = files[(harness[-1] + 1) if harness else 0:]      # what the harness called last
+    return any((sep + "experiment" + sep) in f for f in below)
+
+
 def run_history(args):
     """worker: one (shape, path).  Returns dict(viol=[(key, what, replay)], steps, states)"""
     sh, path, states, scratch, label = args[:5]
@@ -423,10 +472,24 @@ def run_history(args):
     from .. import realenv  # noqa: F401  (disables logging, imports the package)
     res = {"viol": [], "steps": 0, "label": label, "inspections": 0}
     real = None
+    def raises(site, e, upto):
+        if isinstance(e, MachineryError) or not raised_by_real_code(e):
+            raise e
+        res["viol"].append(("raises:%s:%s" % (site, type(e).__name__),
+                            "shape %s path %s: %s of a valid document raised %s: %s" % (label, path[:upto], site, type(e).__name__, str(e)[:300]),
+                            {"sh": sh, "path": path[:upto], "via": via}))
     try:
-        real = RealLoop(sh, scratch)
+        try:
+            real = RealLoop(sh, scratch)
+        except Exception as e:
+            raises("load", e, 0)
+            return res
         if via == "controller":
-            real.build_controller()
+            try:
+                real.build_controller()
+            except Exception as e:
+                raises("controller-build", e, 0)
+                real.controller = None          # go on with the graph alone
         k = {d: 0 for d in loops(sh)}
         seen = set()
 
@@ -436,7 +499,13 @@ def run_history(args):
             st = states.get(kk)
             if st is None:
                 raise MachineryError("TLC emitted no state for shape %s k=%s" % (sh, kk))
-            found = compare(real, st, new, step)
+            try:
+                # the wiring of every instance (old ones must not change) initially, every 4th unrolling and at the end of the history
+                n_un = sum(kk)
+                found = compare(real, st, new, step, every_instance=(after is None and (n_un % 4 == 0 or n_un == len(path))))
+            except Exception as e:
+                raises("observe", e, sum(kk))
+                found = []
             if after is None:
                 check.before = set(found)
             for site, msg in found:
@@ -464,11 +533,8 @@ def run_history(args):
             for kind in order:
                 try:
                     real.inspect(kind)
-                except MachineryError:
-                    raise
                 except Exception as e:
-                    res["viol"].append(("inspection-raises:%s" % kind, "shape %s path %s: controller inspection %s raised %r" % (
-                        label, path[:n], kind, e), {"sh": sh, "path": path[:n], "via": via}))
+                    raises("inspect-%s" % kind, e, n)
                 res["inspections"] += 1
             check(None, None, after=order)
         if real.validation_error is not None:
@@ -481,9 +547,7 @@ def run_history(args):
             try:
                 new = real.iterate(d, k[d])
             except Exception as e:
-                res["viol"].append((key_of(sh, "iterate-raises", max(k.values())),
-                                    "shape %s path %s: unrolling iteration %d of loop %d (%s) raised %r" % (
-                                        label, path, k[d], d, via, e), {"sh": sh, "path": path, "via": via}))
+                raises("unroll", e, sum(k.values()))
                 break
             check((d, k[d]), new)
             inspections()
@@ -499,7 +563,8 @@ def run_history(args):
 
 
 def label_of(sh):
-    return "off%d%s-sw%d-sa%d-carry%s-cond%s%s%s%s" % (sh["off"], "-aux" if sh["aux"] else "", sh["sw"], sh["sa"], sh["carry"], sh["cond"],
+    return "off%d%s-sw%d-sa%d-carry%s-cond%s%s%s%s%s" % (sh["off"], "-aux" if sh["aux"] else "", sh["sw"], sh["sa"], sh["carry"], sh["cond"],
+                                                         "-sc%d" % sh["sc"] if sh["cond"] == "S" else "",
                                                        "-repl%d" % sh["repl"] if sh["repl"] else "", "-tricky" if sh["names"] == "tricky" else "",
                                                        "-twin" if sh["twin"] else "")
 
@@ -567,7 +632,7 @@ def run(tier):
     chk.add_tlc(r2)
     # 2. states for the replay
     c3 = _cfg(os.path.join(gen, "DoWhile_emit_%s.cfg" % tier),
-              cfg_text(maxk, maxk2, emit=True, invariants=False, extra="INVARIANT EmitState\n", **dims))
+              cfg_text(maxk, maxk2, emit=True, invariants=False, extra="INVARIANT EmitState\nCONSTRAINT NoInspect\n", **dims))
     r3 = tlc.run_tlc("DoWhile", c3, workers=1, timeout=900)
     if not r3["ok"]:
         raise MachineryError("DoWhile.tla emission failed: %s" % r3["out"][-2000:])
@@ -582,7 +647,8 @@ def run(tier):
         sh = states[min(states)]["sh"]
         # quick: every shape is unrolled; up to 12 iterations for the shapes imported at stage 1 and the one-component loops,
         # 3 iterations for the others (thorough: all of them >= 13)
-        full = thorough or (not sh["twin"] and (sh["off"] == 1 or not sh["aux"]))
+        full = thorough or (not sh["twin"] and ((sh["off"] == 1 and (sh["cond"] != "S" or sh["sc"] == 1)) or
+                                                (not sh["aux"] and sh["cond"] != "S")))
         if thorough:
             km = maxk if (sh["off"] == 1 and sh["names"] == "plain") else 13
         else:
@@ -610,6 +676,9 @@ def run(tier):
         "documents outside the family (more than two looped components, nested loops, :copy/:link bindings) are not explored",
         "the Controller is built as in tests/test_control.py (ComponentState per node, initialise(stage 0)) and never run(); the order of the "
         "four inspection kinds rotates with the number of unrollings (the spec allows any order)",
+        "an exception raised by the code under test while loading / unrolling / inspecting / observing a document of the family is a violation "
+        "(key raises:<site>:<type>); only failures inside the harness are machinery errors",
+        "the wiring of every instance is re-compared initially, every 4th unrolling and at the end of a history; in between only the two newest iterations",
         "looped instances are not executed: their stdout / condition files are written by the harness with the instance's own name",
         "edges into a consumer outside the loop are only required to contain the instance(s) the reference resolves to and to stay "
         "inside the loops (the implementation also keeps edges to earlier condition producers)",
